@@ -101,7 +101,7 @@ static std::vector<HashConf> g_hashconf;
 #endif
 static void load_hashconf() {
   std::string text;
-  if (!read_file(std::string(REPO_DIR) + "/lib/hashes.conf", text)) { fprintf(stderr, "cannot read hashes.conf\n"); _exit(2); }
+  if (!read_file(std::string(getenv("VERIF_REPO") ? getenv("VERIF_REPO") : REPO_DIR) + "/lib/hashes.conf", text)) { fprintf(stderr, "cannot read hashes.conf\n"); _exit(2); }
   std::string en = HASHES_ENABLED;
   size_t pos = 0;
   while (pos < text.size()) {
@@ -255,6 +255,22 @@ void run_tasks(int n, void (*body)(int, void *), void *arg, size_t) {
 J end_run() { return J::obj(); }
 }  // namespace thr
 #endif
+
+// ================================================================= library static state
+// Library objects are linked with their .data/.bss renamed to libdata/libbss (Makefile).  The
+// state is captured once at start-up and put back before every run, so that a run is a function
+// of its plan alone even for a tree that keeps something in a static.
+extern "C" { extern char __start_libdata[] __attribute__((weak)), __stop_libdata[] __attribute__((weak)), __start_libbss[] __attribute__((weak)), __stop_libbss[] __attribute__((weak)); }
+static std::string g_snap_data, g_snap_bss;
+NOASAN static void raw_copy(char *d, const char *s, size_t n) { for (size_t i = 0; i < n; i++) d[i] = s[i]; }
+static void libstate_snapshot() {
+  if (__start_libdata) { g_snap_data.resize((size_t)(__stop_libdata - __start_libdata)); raw_copy(&g_snap_data[0], __start_libdata, g_snap_data.size()); }
+  if (__start_libbss) { g_snap_bss.resize((size_t)(__stop_libbss - __start_libbss)); raw_copy(&g_snap_bss[0], __start_libbss, g_snap_bss.size()); }
+}
+static void libstate_restore() {
+  if (!g_snap_data.empty()) raw_copy(__start_libdata, g_snap_data.data(), g_snap_data.size());
+  if (!g_snap_bss.empty()) raw_copy(__start_libbss, g_snap_bss.data(), g_snap_bss.size());
+}
 
 // ================================================================= run context
 struct DataObj {
@@ -1073,6 +1089,7 @@ struct RunOut { J result; std::vector<std::string> transcript; };
 
 static RunOut run_plan(const J &plan, uint64_t fill_override, bool use_override) {
   Run r; g_run = &r;
+  libstate_restore();
   r.plan = plan;
   g_prop = plan.str("property");
   g_viol = Violation(); g_viol_extra = 0; g_trace_hash = 0xcbf29ce484222325ULL; g_events = 0; g_event_text.clear(); g_stats.clear();
@@ -1262,6 +1279,7 @@ int main(int argc, char **argv) {
   for (int sg : {SIGSEGV, SIGBUS, SIGILL, SIGFPE}) signal(sg, on_fatal_signal);
   signal(SIGALRM, on_watchdog);
   load_hashconf();
+  libstate_snapshot();
   if (!refsrv.empty()) RefClient::get().start(refsrv);
   if (!genprop.empty()) { emit(generate_plan(genprop, genseed, tier)); return 0; }
   des_model_selftest();
